@@ -536,7 +536,7 @@ func (cs *ContractSet) LoadContractFile(path, pkgName string, trusted bool) erro
 			} else if !strings.Contains(key, "/") {
 				// "Type.Method" or "pkg.Func": decide by case of first word later; keep as is if it names a package
 				first := key[:strings.Index(key, ".")]
-				if first == "" || (first[0] >= 'A' && first[0] <= 'Z') || isIface {
+				if first == "" || (first[0] >= 'A' && first[0] <= 'Z') || (isIface && strings.Count(key, ".") == 1) {
 					key = pkgName + "." + key
 				}
 			}
@@ -545,6 +545,25 @@ func (cs *ContractSet) LoadContractFile(path, pkgName string, trusted bool) erro
 			}
 			cur = &Contract{Key: key, Loops: map[int]*LoopSpec{}, Trusted: isTrusted, Interface: isIface, File: path, Line: ln + 1}
 			cs.Funcs[key] = cur
+		case "uf":
+			// uf name(Int, Int) Int   -- uninterpreted function over Int/Bool
+			curLemma = nil
+			cur = nil
+			op := strings.Index(rest, "(")
+			cp := strings.Index(rest, ")")
+			if op < 0 || cp < op {
+				return fail(fmt.Errorf("bad uf declaration"))
+			}
+			u := &UF{Name: strings.TrimSpace(rest[:op]), Ret: strings.TrimSpace(rest[cp+1:])}
+			for _, a := range strings.Split(rest[op+1:cp], ",") {
+				if a = strings.TrimSpace(a); a != "" {
+					u.Args = append(u.Args, a)
+				}
+			}
+			if u.Ret == "" {
+				u.Ret = "Int"
+			}
+			cs.UFs[u.Name] = u
 		case "spec":
 			// spec name(a, b) = expr
 			curLemma = nil
